@@ -159,7 +159,7 @@ def h_img_upright(m: str, maxlen: int):
 def h_parse_params(s: str, maxlen: int):
     util = _mods()[0]
     assume(len(s) <= maxlen)
-    assume(in_alphabet(s, "a=1\";:"))
+    assume(in_alphabet(s, "a=1\";:\u00b2"))  # incl. a character that str.isdigit() accepts and int() rejects
     s = pinned(s)
     try:
         r = util.parse_params(s)
@@ -173,7 +173,7 @@ def h_parse_params(s: str, maxlen: int):
 def h_ensure_int(v: str, maxlen: int):
     advtree = _mods()[2]
     assume(len(v) <= maxlen)
-    assume(in_alphabet(v, "-+19 ._"))
+    assume(in_alphabet(v, "-+19 ._\u00b2"))
     v = pinned(v)
     try:
         r = advtree.AdvancedNode._ensure_int(None, v, 1)
